@@ -102,3 +102,22 @@ def render(e, depth=0):
 
 def short_fn(def_path):
     return def_path.replace("methods::", "")
+
+
+def render_block(b):
+    """Normalised rendering of a block's statements (names kept, spans dropped)."""
+    out = []
+    if b.get("k") != "Block":
+        return [render(b)]
+    for st in b["stmts"]:
+        if st["k"] == "Let":
+            out.append("let %s = %s" % (st["pat"].get("name", "_"), render(st.get("init"))))
+        elif st["k"] == "ExprStmt":
+            e = st["e"]
+            if e.get("k") == "For":
+                out.append("for %s in %s {%s}" % (e["pat"].get("name", "_"), render(e["iter"]), ";".join(render_block(e["body"]))))
+            else:
+                out.append(render(e))
+    if b.get("tail") is not None:
+        out.append(render(b["tail"]))
+    return out
